@@ -62,7 +62,7 @@ def correspondence(ctx, verdict, pr):
     return res
 
 
-MANIFEST = {'technique': 'Coq invariant proof over all label sequences of a session-pair model (per-direction data invariant composed with the re-sequencer invariant of C02); model tied to multiplex.Session by lock-step differential execution under testing/synctest; schedule-point replay of the add-vs-send window', 'level_text': 'Proved in Coq for EVERY label sequence (any number of connections/streams, any write sizes, any cross-connection arrival order, both directions, faults/closes/timers included): C01_reads_prefix_of_written (what a reader was given is a prefix of what the writes on that same stream accepted) and the invariant C01_data_invariant behind it (frames numbered in emission order, every frame in flight genuine and at most once, receiver buffer = arrived set, read ++ pipe = first k data frames). The completeness half (all bytes arrive once everything is delivered; a healthy session stays up) is stated (C01_complete_full) but not yet a theorem: it is decided on every run by the lock-step correspondence (model = code on every observable) plus an independent oracle over seeded scenarios (1-8 connections incl. singleplex, 4 ciphers, up to 40 streams, writes of 1 byte..3 frames), and by the schedule-point replay of the addConn publish window.', 'level_note': 'Granularity: one harness label runs to quiescence; goroutine interleavings inside a label are covered by schedule-point replays, the race detector and (C13) the concurrent stress driver, not by the theorems. Hypotheses of the theorems: stream ids returned by OpenStream are fresh at the opener (fresh_run; in Cloak only the client opens streams), fewer than 2^64-2 frames per stream direction. Frames are abstract (decoded) in this model: codec = C04, record framing = C05. Trusted: Coq kernel, extraction (ExtrOcamlBasic), testing/synctest barrier, in-memory FIFO connections.', 'design_ref': 'DESIGN.md section 6, C01'}
+MANIFEST = {'technique': 'Coq invariant proof over all label sequences of a session-pair model (per-direction data invariant composed with the re-sequencer invariant of C02); model tied to multiplex.Session by lock-step differential execution under testing/synctest; schedule-point replay of the add-vs-send window', 'level_text': "Proved in Coq for EVERY label sequence (any number of connections/streams, any write sizes, any cross-connection arrival order, both directions, faults/closes/timers included): C01_reads_prefix_of_written (what a reader was given is a prefix of what the writes on that same stream accepted) and the invariant C01_data_invariant behind it (frames numbered in emission order, every frame in flight genuine and at most once, receiver buffer = arrived set, read ++ pipe = first k data frames). Proved for every HEALTHY label sequence (k>=1 connections, multiplexed; opens, writes, reads, accepts, stream closes, deliveries in any order with any connection picks, inactivity ticks while streams are open; no connection failure, no session close): C01_nothing_lost (once no frame of a direction is in flight, bytes read ++ bytes in the reader's pipe = EXACTLY the bytes the writes accepted), C01_session_with_open_streams_stays_up (no session or connection is ever closed), C01_write_accepted_whole. The model is tied to the code on every run by the lock-step correspondence (model = code on every observable) plus an independent oracle over seeded scenarios (1-8 connections incl. singleplex, 4 ciphers, up to 40 streams, writes of 1 byte..3 frames), and by the schedule-point replay of the addConn publish window.", 'level_note': 'Granularity: one harness label runs to quiescence; goroutine interleavings inside a label are covered by schedule-point replays, the race detector and (C13) the concurrent stress driver, not by the theorems. Hypotheses of the theorems: stream ids returned by OpenStream are fresh at the opener (fresh_run; in Cloak only the client opens streams), fewer than 2^64-2 frames per stream direction. Frames are abstract (decoded) in this model: codec = C04, record framing = C05. Trusted: Coq kernel, extraction (ExtrOcamlBasic), testing/synctest barrier, in-memory FIFO connections.', 'design_ref': 'DESIGN.md section 6, C01'}
 
 
 # ---- concurrency windows (tools/props/winlib.py): client.RouteTCP with two local connections, one parked
